@@ -143,9 +143,9 @@ C14_SPEC = dict(
         "UniPROBE round trip (reader_roundtrip_uniprobe) is proved for frequency tokens of nom's decimal float grammar "
         "SIGN? (DIGITS ('.' DIGITS?)? | '.' DIGITS) ([eE] SIGN? DIGITS)? (IoPrintU.wf_dec) on which the float oracle is "
         "defined, names without CR/LF that trim() leaves unchanged and that do not look like a column line, rows passing "
-        "FrequencyMatrix::new's tolerance (binary32, Flocq), any number of empty lines after each record; nan/inf "
-        "spellings (such rows never pass the tolerance test) and blank lines before the first record are covered by the "
-        "correspondence check only",
+        "FrequencyMatrix::new's tolerance (binary32, Flocq), any number of empty lines after each record, any white-space-only "
+        "complete lines before the first record; nan/inf spellings (such rows never pass the tolerance test) are covered "
+        "by the correspondence check only",
         "the record list of the JASPAR round-trip theorems is non-empty; the empty list is reader_roundtrip_no_record "
         "(a file of white space only reads as End; a file without any '>' whose last byte is not white space yields "
         "one Err: documented behaviour of Reader::new)",
